@@ -1,6 +1,7 @@
 package main
 
 import (
+	"bytes"
 	"encoding/binary"
 	"fmt"
 
@@ -66,6 +67,8 @@ func runC06(c *mon.Ctx) {
 		}
 	}
 	// bind messages
+	type heldBind struct{ live, copy []byte }
+	var held []heldBind
 	nb := c.N(5000, 200000)
 	for i := 0; i < nb; i++ {
 		perm := randKey(r, 0)
@@ -80,6 +83,19 @@ func runC06(c *mon.Ctx) {
 			c.Violate("bind-error", map[string]any{"err": err.Error()})
 			continue
 		}
+		// a bind message is kept by its caller (it is re-encoded on every resend): results of earlier
+		// calls must not change when the function is called again
+		for k, h := range held {
+			if !bytes.Equal(h.live, h.copy) {
+				c.Violate("bind-result-changed-by-a-later-call", map[string]any{"calls_later": len(held) - k, "was": hx(h.copy), "now": hx(h.live)})
+				held = nil
+				break
+			}
+		}
+		if len(held) >= 6 {
+			held = held[1:]
+		}
+		held = append(held, heldBind{live: wire, copy: append([]byte(nil), wire...)})
 		w := map[string]any{"perm_key": hx(perm.Value[:]), "inner": inner, "msg_id": msgID, "wire": hx(wire)}
 		id := refmodel.KeyID(perm.Value[:])
 		if len(wire) < 24+16 || (len(wire)-24)%16 != 0 || string(wire[:8]) != string(id[:]) {
